@@ -60,8 +60,66 @@ def _sample_sources(fn, expr, channels, depth=0, seen=None):
   return out
 
 
+# (crop_beginning_seconds, total_length_seconds, sample_rate) -> window [lower, upper) of crop_samples: int(begin*rate) .. + int(length*rate)
+CROP_SCENARIOS = [((0, 1, 4), (0, 4)), ((1, 0, 4), (4, 4)), ((1, '1/2', 4), (4, 6)), ((0, 0, 8), (0, 0)), (('3/4', '5/4', 8), (6, 16)), ((2, '1/8', 4), (8, 8))]
+
+
+def crop_scenarios(ctx, rule='CROP/scenarios'):
+  """crop_samples evaluated path by path: the slice it returns, for the stated arguments, is the stated window - also for a length of
+  0 (an empty window, not "no length given")."""
+  from sa import pathval, scenario
+  fi = ctx.func('audio_io:crop_samples')
+  ps = None
+  try:
+    ps = [(c, e) for c, e, end in pathval.paths(fi.node.body) if end == 'return' and pathval.RETURN in e]
+  except pathval.PathError as e:
+    why = 'cannot classify: crop_samples is not a straight-line block (%s)' % e
+  if not ps:
+    why = why if ps is None else 'cannot classify: crop_samples has no returning path'
+    ctx.ob(rule, fi, fi.node, False, why, construct='crop_samples returns the stated window', unknown=why)
+    return
+  prm = fi.params()
+  for (b, l, r), (lo, hi) in CROP_SCENARIOS:
+    sub = {'crop_beginning_seconds': nf.rat(E(str(b))), 'total_length_seconds': nf.rat(E(str(l))), 'sample_rate': nf.rat(E(str(r)))}
+    cons = 'crop_samples(begin=%s s, length=%s s, rate=%s) returns samples[%d:%d]' % (b, l, r, lo, hi)
+    got, stuck = None, None
+    for conds, env in ps:
+      taken = True
+      for t, pol in conds:
+        v = scenario.fold_numeric(t, sub, dyadic=True)
+        if v is None:
+          stuck, taken = norm_text(t), None
+          break
+        if bool(v) != pol:
+          taken = False
+          break
+      if taken is None:
+        break
+      if taken:
+        rv = env[pathval.RETURN]
+        if isinstance(rv, ast.Subscript) and isinstance(rv.slice, ast.Slice) and norm_text(rv.value) == prm[0] and rv.slice.step is None:
+          a_ = 0 if rv.slice.lower is None else scenario.fold_numeric(rv.slice.lower, sub, dyadic=True)
+          b_ = 'end' if rv.slice.upper is None else scenario.fold_numeric(rv.slice.upper, sub, dyadic=True)
+          if a_ is None or b_ is None:
+            stuck = norm_text(rv)
+          else:
+            got = (a_, b_)
+        else:
+          stuck = norm_text(rv)
+        break
+    if got is None:
+      why = 'cannot classify: %s cannot be evaluated in this scenario' % (stuck or 'no path of crop_samples')
+      ctx.ob(rule, fi, fi.node, False, why, construct=cons, unknown=why)
+    else:
+      ok = got == (lo, hi)
+      ctx.ob(rule, fi, fi.node, ok, 'window [%d, %d)' % (lo, hi) if ok else
+             'crop_samples(crop_beginning_seconds=%s, total_length_seconds=%s) at %s samples per second returns samples[%s:%s], not samples[%d:%d]%s' % (
+                 b, l, r, got[0], '' if got[1] == 'end' else got[1], lo, hi, ' (a length of 0 is an empty window, not "no length")' if l == 0 else ''), construct=cons, definite=True)
+
+
 def run(ctx):
   from sa import pitfalls
+  crop_scenarios(ctx)
   pitfalls.apply(ctx, 'PITFALL', [fi_ for q_, fi_ in sorted(ctx.P.module('audio_io').functions.items())], ['neg-zero-slice'], {
       'neg-zero-slice': 'when nothing is to be trimmed the slice x[:-0] is x[:0], the empty array: a duration that is a whole number of copies (or a crop that removes '
                         'nothing) returns no samples at all'})
